@@ -75,3 +75,41 @@ Print Assumptions C17_source_engine_boundary.
 Theorem C17_source_engine_boundary_clones : boundary_safe gen_engine_boundary = true.
 Proof. exact gen_engine_boundary_safe. Qed.
 Print Assumptions C17_source_engine_boundary_clones.
+
+(* ---------------- bsonkit.Clone at the engine-level boundary ----------------
+   The copy the engine-level writes make (G9: every document is cloned first)
+   is bsonkit.Clone: containers are rebuilt, the byte slice of a
+   primitive.Binary is shared.  In the ownership model: *)
+
+(* on a value without binaries Clone is the fresh copy *)
+Theorem C17_clone_without_binaries_is_fresh_copy :
+  forall bin v n, no_bin bin v = true -> clone_share bin n v = copy_fresh n v.
+Proof. exact clone_no_bin_is_copy. Qed.
+Print Assumptions C17_clone_without_binaries_is_fresh_copy.
+
+(* ... so whatever the caller overwrites inside its argument after the call,
+   the clone the transaction keeps is unchanged.
+   FULL statement (no `no_bin` hypothesis): false of the faithful model, see
+   the _refuted theorem; this is the proved part. *)
+Theorem C17_engine_clone_independent_partial :
+  forall bin arg n L,
+    no_bin bin arg = true -> below n arg ->
+    (forall l, In l L -> In l (locs arg)) ->
+    mutate L (fst (clone_share bin n arg)) = fst (clone_share bin n arg).
+Proof. exact engine_clone_independent_partial. Qed.
+Print Assumptions C17_engine_clone_independent_partial.
+
+(* the recorded finding C17:engine-level-argument-binary-bytes-shared: a
+   document with one binary field; overwriting the binary's bytes through the
+   argument changes the clone *)
+Theorem C17_engine_clone_independent_refuted :
+  exists arg n L,
+    below n arg /\ (forall l, In l L -> In l (locs arg)) /\
+    mutate L (fst (clone_share leaf_is_binary n arg)) <> fst (clone_share leaf_is_binary n arg).
+Proof. exact engine_clone_independent_refuted. Qed.
+Print Assumptions C17_engine_clone_independent_refuted.
+
+Example C17_engine_clone_partial_nonvacuous :
+  no_bin leaf_is_binary (HNode 1 7 [HNode 2 9 [HScalar 3]; HScalar 4]) = true /\
+  below 10 (HNode 1 7 [HNode 2 9 [HScalar 3]; HScalar 4]).
+Proof. exact engine_clone_partial_nonvacuous. Qed.
